@@ -64,6 +64,9 @@ type session struct {
 
 	timestampPrecision      TimestampPrecision
 	lastCheckedResetSeqTime time.Time
+
+	// heartbeatDue is set when the heartbeat timer fired while a test request was pending.
+	heartbeatDue bool
 }
 
 func (s *session) logError(err error) {
